@@ -1155,3 +1155,45 @@ Lemma toy_doc_not_preserved : ds_decode toy (ds_encode toy (toy_doc " a")) <> So
 Proof. rewrite toy_doc_trimmed. intros E. injection E as E. discriminate E. Qed.
 Lemma toy_doc_preserved : ds_decode toy (ds_encode toy (toy_doc "a b")) = Some (toy_doc "a b").
 Proof. vm_cast_no_check (eq_refl (Some (toy_doc "a b"))). Qed.
+
+(** * The vocabulary table is the vocabulary the encoder uses *)
+Definition strip_at (s : string) : string :=
+  match s with String c r => if Ascii.eqb c "@" then r else s | EmptyString => s end.
+Definition vocab_names : list string :=
+  flat_map (fun t => match t with
+                     | (_, xml, fields) =>
+                         (match xml with EmptyString => [] | _ => [xml] end)
+                         ++ map (fun f => match f with (_, key, _) => strip_at key end) fields
+                     end) ds_vocab
+  ++ map snd ds_wrappers ++ plist_write_tags ++ [plist_key_tag].
+Fixpoint names_of_node (n : node) : list string :=
+  match n with
+  | Text _ => []
+  | Elem name attrs kids =>
+      name :: map fst attrs
+      ++ (fix go (l : list node) : list string :=
+            match l with [] => [] | k :: r => names_of_node k ++ go r end) kids
+  end.
+Definition mem_str (s : string) (l : list string) : bool := existsb (String.eqb s) l.
+Definition same_names (a b : list string) : bool :=
+  forallb (fun s => mem_str s b) a && forallb (fun s => mem_str s a) b.
+
+(** a document in which every optional attribute and every element kind occurs *)
+Definition full_doc : doc toy :=
+  Build_doc toy 5%Z
+    [Build_axis toy "Weight" "wght" 400%Z true (Some 100%Z) (Some 900%Z) (Some [100%Z; 400%Z])
+                (Some [Build_mapping toy 100%Z (-5)%Z])]
+    (Build_rules toy PLast
+       [Build_rule toy (Some "r") [[Build_condition toy "Weight" (Some 1%Z) (Some 3%Z)]]
+                   [Build_subst "a" "a.alt"]])
+    [Build_source toy (Some "F") (Some "S") (Some "n") "A.ufo" (Some "layer")
+                  [toy_dim "Weight" (Some 1%Z) (Some 100%Z) (Some 2%Z)]]
+    [Build_instance toy (Some "F") (Some "S") (Some "n") (Some "f") (Some "ps") (Some "smf") (Some "sms")
+                    [toy_dim "Weight" (Some 1%Z) None None]
+                    [("k", PArr toy [PBool toy true; PBool toy false; PDict toy []])]]
+    [("s", PStr toy "x"); ("i", PInt toy (-7)); ("r", PReal toy 2%Z); ("d", PData toy "bytes");
+     ("t", PDate toy 0%Z)].
+Lemma full_doc_uses_vocab : same_names (names_of_node (ds_encode toy full_doc)) vocab_names = true.
+Proof. vm_cast_no_check (eq_refl true). Qed.
+Lemma full_doc_roundtrip : ds_decode toy (ds_encode toy full_doc) = Some full_doc.
+Proof. vm_cast_no_check (eq_refl (Some full_doc)). Qed.
